@@ -87,6 +87,10 @@ func (l *genericFileSessionLoader) Store(s *Session) error {
 	file.writeSession(s)
 	data, _ := json.Marshal(file)
 
+	// the file is about to change: what Load cached for the old modification time is stale, and
+	// the new modification time may equal the old one on a coarse clock
+	l.cached = nil
+
 	return ioutil.WriteFile(l.path, data, 0600)
 }
 
